@@ -28,6 +28,7 @@ import (
 	"time"
 
 	"github.com/codelaboratoryltd/bng/pkg/dhcp"
+	"github.com/codelaboratoryltd/bng/pkg/ebpf"
 	"github.com/insomniacslk/dhcp/dhcpv4"
 	"go.uber.org/zap"
 )
@@ -45,7 +46,8 @@ func (c *capConn) SetDeadline(time.Time) error            { return nil }
 func (c *capConn) SetReadDeadline(time.Time) error        { return nil }
 func (c *capConn) SetWriteDeadline(time.Time) error       { return nil }
 
-var dhcpPaths = []string{"release", "decline", "expiry", "expiry-rediscover", "auth-fail", "shutdown"}
+var dhcpPaths = []string{"release", "decline", "expiry", "expiry-rediscover", "auth-fail", "shutdown",
+	"expiry-rerequest", "release-rerequest", "reboot-rediscover", "replace-cpe", "move-circuit"}
 
 var dhcpPrefixes = map[string][]string{
 	"release":           {"acked", "renewed", "initreboot"},
@@ -54,11 +56,27 @@ var dhcpPrefixes = map[string][]string{
 	"expiry-rediscover": {"acked", "renewed", "initreboot"},
 	"auth-fail":         {"fresh", "offered"},
 	"shutdown":          {"acked", "renewed"},
+	// "superseded" family: the client's session is continued or replaced by a new exchange of the same client
+	"expiry-rerequest":  {"acked", "renewed", "initreboot"},
+	"release-rerequest": {"acked", "renewed", "initreboot"},
+	"reboot-rediscover": {"acked", "renewed", "initreboot"},
+	"replace-cpe":       {"acked", "renewed", "initreboot"}, // relayed sessions only
+	"move-circuit":      {"acked", "renewed", "initreboot"}, // relayed sessions only
+}
+
+func dhcpPathValid(kind, path string) bool {
+	if path == "replace-cpe" || path == "move-circuit" {
+		return kind == "dhcp-relay"
+	}
+	return true
 }
 
 func dhcpCells(kind string) []cellSpec {
 	var out []cellSpec
 	for _, p := range dhcpPaths {
+		if !dhcpPathValid(kind, p) {
+			continue
+		}
 		for _, pre := range dhcpPrefixes[p] {
 			seconds := []string{"none", "seq:release", "seq:decline", "seq:expiry"}
 			if p == "shutdown" {
@@ -100,6 +118,16 @@ func genDHCP(s src, c cellSpec, base *params) *tcase {
 	if chance(s, "hostname", 1, 3) {
 		tc.P.Hostname = fmt.Sprintf("cpe-%d", s.intn("hostname.n", 0, 999))
 	}
+	switch c.Path {
+	case "expiry-rerequest":
+		tc.P.ReqShape = pick(s, "req.shape", []string{"renewing", "initreboot", "selecting"})
+	case "release-rerequest":
+		tc.P.ReqShape = pick(s, "req.shape", []string{"renewing", "initreboot"})
+	case "replace-cpe":
+		tc.P.MAC2 = genMAC(s, "mac2", 0x20)
+	case "move-circuit":
+		tc.P.Cid2 = []byte(fmt.Sprintf("eth 1/%d/%d:%d", s.intn("cid2.a", 0, 9), s.intn("cid2.b", 0, 48), s.intn("cid2.c", 1, 4094)))
+	}
 	return tc
 }
 
@@ -117,6 +145,12 @@ type dhcpRun struct {
 	bgIP []net.IP
 
 	quarantined int // effective DECLINEs of the session's address
+
+	// identity of the session under test; the superseded family changes it (replacement CPE, other circuit)
+	curMAC net.HardwareAddr
+	curCid []byte
+	macs   []net.HardwareAddr // every MAC the session (chain) has used
+	cids   [][]byte           // every circuit-id it has used
 }
 
 func normMAC(s string) string {
@@ -262,7 +296,124 @@ func (x *dhcpRun) passLease() {
 	synctest.Wait()
 }
 
-func (x *dhcpRun) mac() net.HardwareAddr { return net.HardwareAddr(x.tc.P.MAC) }
+func (x *dhcpRun) mac() net.HardwareAddr { return x.curMAC }
+
+func (x *dhcpRun) isMine(calling string) bool {
+	for _, m := range x.macs {
+		if normMAC(calling) == normMAC(m.String()) {
+			return true
+		}
+	}
+	return false
+}
+
+// openAcct: accounting sessions of the client (chain) that have a Start and no Stop yet.
+func (x *dhcpRun) openAcct() []string {
+	starts, stops := map[string]int{}, map[string]int{}
+	var order []string
+	for _, r := range x.rs.records() {
+		if !x.isMine(r.Calling) {
+			continue
+		}
+		if _, ok := starts[r.SID]; !ok {
+			order = append(order, r.SID)
+			starts[r.SID] = 0
+		}
+		switch r.Type {
+		case acctStart:
+			starts[r.SID]++
+		case acctStop:
+			stops[r.SID]++
+		}
+	}
+	var open []string
+	for _, sid := range order {
+		if starts[sid] > stops[sid] {
+			open = append(open, sid)
+		}
+	}
+	return open
+}
+
+// superseded is the interim census of the "superseded" family, taken after the client's new exchange and before
+// the successor session is ended.  Inheritance rule (from what handleRequest documents): the successor keeps the
+// address, so the pool allocation and whatever is keyed by the address (NAT block, QoS policy) may stay; the
+// accounting session either continues under the SAME Acct-Session-Id without a second Start, or is stopped before
+// the new Start - in both cases exactly one accounting session of the client is open; everything keyed by an
+// identifier the successor no longer uses (old MAC, old circuit-id) must be gone.
+func (x *dhcpRun) superseded(oldMAC net.HardwareAddr, oldCid []byte, live bool) {
+	res, tc := x.res, x.tc
+	sig := func(r string) string { return "C16/dhcp/" + tc.Path + "/" + r }
+	open := x.openAcct()
+	want := 0
+	if live && x.tc.P.Radius {
+		want = 1
+	}
+	if len(open) > want {
+		res.fail(sig("acct-superseded-session-open"), "after the client's new exchange %d accounting sessions of the client are open (%v): the superseded session was neither continued under its Acct-Session-Id nor stopped; stream: %v", len(open), open, x.rs.records())
+	}
+	if live && len(open) < want {
+		res.fail(sig("acct-live-session-closed"), "the client holds a lease but none of its accounting sessions is open; stream: %v", x.rs.records())
+	}
+	if oldMAC != nil && oldMAC.String() != x.curMAC.String() {
+		for _, l := range x.srv.VerifLeases() {
+			if l.Key == oldMAC.String() {
+				res.fail(sig("lease"), "the replaced CPE %s still has a lease (%s)", oldMAC, l.Lease.IP)
+			}
+		}
+		if ip := x.pool.VerifState().Allocated[oldMAC.String()]; ip != "" {
+			res.fail(sig("pool"), "the pool still has %s allocated to the replaced CPE %s", ip, oldMAC)
+		}
+		if a, err := x.w.loader.GetSubscriber(ebpf.MACToUint64(oldMAC)); err == nil && a != nil {
+			res.fail(sig("cache-mac"), "the fast path still answers for the replaced CPE %s", oldMAC)
+		}
+	}
+	if len(oldCid) > 0 && string(oldCid) != string(x.curCid) {
+		for _, l := range x.srv.VerifLeasesByCircuitID() {
+			if l.Key == fmt.Sprintf("%x", oldCid) {
+				res.fail(sig("lease"), "the circuit-id index still resolves the circuit the client left (%x)", oldCid)
+			}
+		}
+		if _, err := x.w.loader.GetCircuitIDMapping(oldCid); err == nil {
+			res.fail(sig("cache-circuit-id"), "circuit_id_map still answers for the circuit the client left (%x)", oldCid)
+		}
+		if len(oldCid) <= ebpf.CircuitIDKeyLen {
+			if a, err := x.w.loader.GetCircuitIDSubscriber(oldCid); err == nil && a != nil {
+				res.fail(sig("cache-circuit-id"), "circuit_id_subscribers still answers for the circuit the client left (%x)", oldCid)
+			}
+		}
+	}
+}
+
+// lapse lets the lease of the session under test run out WITHOUT a cleanup tick (background clients renew at T1).
+func (x *dhcpRun) lapse() {
+	lease := time.Duration(x.tc.P.LeaseS) * time.Second
+	x.renewBackground()
+	time.Sleep(lease / 2)
+	synctest.Wait()
+	x.renewBackground()
+	time.Sleep(lease/2 + 2*time.Second)
+	synctest.Wait()
+}
+
+// finish ends the successor session the ordinary way: a cleanup tick comes round (it must not touch the live
+// lease), then the client RELEASEs.
+func (x *dhcpRun) finish() {
+	x.srv.VerifCleanupExpired()
+	synctest.Wait()
+	found := false
+	for _, l := range x.srv.VerifLeases() {
+		if l.Key == x.curMAC.String() {
+			found = true
+		}
+	}
+	if found {
+		x.res.logf("  cleanup tick (lease stays); RELEASE %s by %s", x.ip, x.curMAC)
+	} else {
+		x.res.logf("  cleanup tick; the client holds no lease; RELEASE %s by %s", x.ip, x.curMAC)
+	}
+	x.release(x.curMAC, x.curCid, x.tc.P.RemoteID, x.ip)
+}
 
 // terminate performs one termination path on the session under test.
 func (x *dhcpRun) terminate(path string) {
@@ -270,12 +421,12 @@ func (x *dhcpRun) terminate(path string) {
 	switch path {
 	case "release":
 		x.res.logf("  RELEASE %s", x.ip)
-		x.release(x.mac(), p.Cid, p.RemoteID, x.ip)
+		x.release(x.mac(), x.curCid, p.RemoteID, x.ip)
 	case "decline":
 		x.res.logf("  DECLINE %s", x.ip)
 		st := x.pool.VerifState()
 		before := len(st.Unavailable)
-		x.decline(x.mac(), p.Cid, p.RemoteID, x.ip)
+		x.decline(x.mac(), x.curCid, p.RemoteID, x.ip)
 		if len(x.pool.VerifState().Unavailable) > before {
 			x.quarantined++
 		}
@@ -292,19 +443,102 @@ func (x *dhcpRun) terminate(path string) {
 		x.renewBackground()
 		time.Sleep(lease/2 + 2*time.Second)
 		synctest.Wait()
-		ip := x.discover(x.mac(), p.Cid, p.RemoteID)
+		ip := x.discover(x.mac(), x.curCid, p.RemoteID)
 		if ip == nil {
 			x.res.harness = "DISCOVER after expiry got no OFFER"
 			return
 		}
 		x.res.logf("  lease ran out (%ds, no cleanup tick yet); DISCOVER -> OFFER %s", p.LeaseS, ip)
-		if ok, _ := x.request(x.mac(), p.Cid, p.RemoteID, "selecting", ip); !ok {
+		if ok, _ := x.request(x.mac(), x.curCid, p.RemoteID, "selecting", ip); !ok {
 			x.res.harness = "REQUEST after expiry got no ACK"
 			return
 		}
 		x.ip = ip
 		x.res.logf("  REQUEST -> ACK %s (new session); RELEASE", ip)
-		x.release(x.mac(), p.Cid, p.RemoteID, x.ip)
+		x.release(x.mac(), x.curCid, p.RemoteID, x.ip)
+	case "expiry-rerequest":
+		// the lease runs out and, before the cleanup tick comes round, the client sends a late REQUEST
+		x.lapse()
+		ok, replied := x.request(x.mac(), x.curCid, p.RemoteID, p.ReqShape, x.ip)
+		x.res.logf("  lease ran out (%ds, no tick yet); REQUEST[%s] %s -> ack=%v replied=%v", p.LeaseS, p.ReqShape, x.ip, ok, replied)
+		if !ok {
+			// the server may refuse a lapsed lease; the client then starts over
+			ip := x.discover(x.mac(), x.curCid, p.RemoteID)
+			if ip == nil {
+				x.res.harness = "after a refused late REQUEST the DISCOVER got no OFFER"
+				return
+			}
+			if ok2, _ := x.request(x.mac(), x.curCid, p.RemoteID, "selecting", ip); !ok2 {
+				x.res.harness = "after a refused late REQUEST the client could not get a lease at all"
+				return
+			}
+			x.ip = ip
+		}
+		x.superseded(nil, nil, true)
+		x.finish()
+	case "release-rerequest":
+		// RELEASE, and a (late / retransmitted) REQUEST of the same client for the same address behind it
+		x.release(x.mac(), x.curCid, p.RemoteID, x.ip)
+		ok, replied := x.request(x.mac(), x.curCid, p.RemoteID, p.ReqShape, x.ip)
+		x.res.logf("  RELEASE %s; REQUEST[%s] %s -> ack=%v replied=%v", x.ip, p.ReqShape, x.ip, ok, replied)
+		x.superseded(nil, nil, ok)
+		if ok {
+			x.finish()
+		}
+	case "reboot-rediscover":
+		// the client reboots while its lease is valid: DISCOVER, REQUEST - the session goes on
+		ip := x.discover(x.mac(), x.curCid, p.RemoteID)
+		if ip == nil {
+			x.res.harness = "DISCOVER of a client with a valid lease got no OFFER"
+			return
+		}
+		ok, _ := x.request(x.mac(), x.curCid, p.RemoteID, "selecting", ip)
+		x.res.logf("  reboot: DISCOVER -> OFFER %s (lease was %s); REQUEST -> ack=%v", ip, x.ip, ok)
+		if !ok {
+			x.res.harness = "REQUEST after the re-DISCOVER got no ACK"
+			return
+		}
+		x.ip = ip
+		x.superseded(nil, nil, true)
+		x.finish()
+	case "replace-cpe":
+		// a replacement CPE (other MAC) comes up on the same circuit while the lease is valid and takes it over
+		old := x.curMAC
+		nm := net.HardwareAddr(p.MAC2)
+		ip := x.discover(nm, x.curCid, p.RemoteID)
+		if ip == nil {
+			x.res.harness = "DISCOVER of the replacement CPE got no OFFER"
+			return
+		}
+		ok, _ := x.request(nm, x.curCid, p.RemoteID, "selecting", ip)
+		x.res.logf("  replacement CPE %s on the same circuit: DISCOVER -> OFFER %s (lease of %s was %s); REQUEST -> ack=%v", nm, ip, old, x.ip, ok)
+		if !ok {
+			x.res.harness = "the replacement CPE got no ACK"
+			return
+		}
+		x.macs = append(x.macs, nm)
+		x.curMAC = nm
+		if !ip.Equal(x.ip) {
+			// the replacement got an address of its own: then the old CPE's session is a separate one and still alive
+			x.res.harness = fmt.Sprintf("the replacement CPE was given %s instead of taking over %s", ip, x.ip)
+			return
+		}
+		x.superseded(old, nil, true)
+		x.finish()
+	case "move-circuit":
+		// the client renews through another port: its lease moves to the new circuit-id
+		oldCid := x.curCid
+		nc := []byte(p.Cid2)
+		ok, _ := x.request(x.mac(), nc, p.RemoteID, "renewing", x.ip)
+		x.res.logf("  renewal arrives on circuit %q (was %q) -> ack=%v", nc, oldCid, ok)
+		if !ok {
+			x.res.harness = "the renewal through the other circuit got no ACK"
+			return
+		}
+		x.cids = append(x.cids, nc)
+		x.curCid = nc
+		x.superseded(nil, oldCid, true)
+		x.finish()
 	case "shutdown":
 		x.res.logf("  shutdown sequence of main.go: qosMgr.Stop(), natMgr.Stop(), loader.Close()")
 		if x.w.qos != nil {
@@ -338,6 +572,8 @@ func runDHCPInBubble(tc *tcase, rs *radServer, res *result) {
 	}
 	defer w.close()
 	x := &dhcpRun{tc: tc, res: res, w: w, rs: rs, conn: &capConn{}}
+	x.curMAC, x.curCid = net.HardwareAddr(p.MAC), []byte(p.Cid)
+	x.macs, x.cids = []net.HardwareAddr{x.curMAC}, [][]byte{x.curCid}
 	logger := zap.NewNop()
 	network := fmt.Sprintf("10.%d.%d.0/%d", p.Net, p.Net3, p.PoolBits)
 	_, ipn, _ := net.ParseCIDR(network)
@@ -415,14 +651,14 @@ func runDHCPInBubble(tc *tcase, rs *radServer, res *result) {
 			x.ip = net.ParseIP(prePool.Available[0]).To4()
 		}
 	case "offered", "acked", "renewed":
-		x.ip = x.discover(x.mac(), p.Cid, p.RemoteID)
+		x.ip = x.discover(x.mac(), x.curCid, p.RemoteID)
 		if x.ip == nil {
 			res.harness = "DISCOVER got no OFFER"
 			return
 		}
 		res.logf("  DISCOVER -> OFFER %s", x.ip)
 		if tc.Prefix != "offered" {
-			ok, _ := x.request(x.mac(), p.Cid, p.RemoteID, "selecting", x.ip)
+			ok, _ := x.request(x.mac(), x.curCid, p.RemoteID, "selecting", x.ip)
 			if !ok {
 				res.harness = "REQUEST got no ACK"
 				return
@@ -434,7 +670,7 @@ func runDHCPInBubble(tc *tcase, rs *radServer, res *result) {
 			time.Sleep(time.Duration(p.LeaseS) * time.Second / 2)
 			synctest.Wait()
 			x.renewBackground()
-			ok, _ := x.request(x.mac(), p.Cid, p.RemoteID, "renewing", x.ip)
+			ok, _ := x.request(x.mac(), x.curCid, p.RemoteID, "renewing", x.ip)
 			if !ok {
 				res.harness = "renewal got no ACK"
 				return
@@ -447,7 +683,7 @@ func runDHCPInBubble(tc *tcase, rs *radServer, res *result) {
 			return
 		}
 		x.ip = net.ParseIP(prePool.Available[len(prePool.Available)/2]).To4()
-		ok, _ := x.request(x.mac(), p.Cid, p.RemoteID, "initreboot", x.ip)
+		ok, _ := x.request(x.mac(), x.curCid, p.RemoteID, "initreboot", x.ip)
 		if !ok {
 			res.harness = "INIT-REBOOT REQUEST got no ACK"
 			return
@@ -470,7 +706,7 @@ func runDHCPInBubble(tc *tcase, rs *radServer, res *result) {
 	}
 	w.planeHeld(res, pre)
 	for _, r := range rs.records() {
-		if r.Type == acctStart && normMAC(r.Calling) == normMAC(x.mac().String()) {
+		if r.Type == acctStart && x.isMine(r.Calling) {
 			res.hold("acct")
 		}
 	}
@@ -489,7 +725,7 @@ func runDHCPInBubble(tc *tcase, rs *radServer, res *result) {
 			res.harness = "no address to request"
 			return
 		}
-		ok, replied := x.request(x.mac(), p.Cid, p.RemoteID, shape, x.ip)
+		ok, replied := x.request(x.mac(), x.curCid, p.RemoteID, shape, x.ip)
 		res.logf("  REQUEST %s with RADIUS rejecting -> ack=%v replied=%v", x.ip, ok, replied)
 		if ok {
 			res.fail("C16/"+tc.Kind+"/auth-fail/acked-despite-reject", "RADIUS rejected %s but the REQUEST for %s was acknowledged", x.mac(), x.ip)
@@ -575,8 +811,7 @@ func (x *dhcpRun) oracle(sigPath string, pre *census, prePool dhcp.VerifPoolStat
 	sig := func(r string) string { return "C16/" + tc.sigKind() + "/" + sigPath + "/" + r }
 	// (4) accounting: only what outlives the process is demanded of a shutdown
 	recs := x.rs.records()
-	me := normMAC(x.mac().String())
-	acctOracle(res, tc, recs, func(r acctRec) bool { return normMAC(r.Calling) == me }, sigPath)
+	acctOracle(res, tc, recs, func(r acctRec) bool { return x.isMine(r.Calling) }, sigPath)
 	for _, b := range x.rs.problems() {
 		res.harness = "scripted RADIUS server: " + b
 	}
@@ -585,23 +820,33 @@ func (x *dhcpRun) oracle(sigPath string, pre *census, prePool dhcp.VerifPoolStat
 	}
 	// the server's own tables
 	for _, l := range x.srv.VerifLeases() {
-		if l.Key == x.mac().String() {
-			res.fail(sig("lease"), "lease table still holds a lease for %s (%s) after the session ended", l.Key, l.Lease.IP)
+		for _, m := range x.macs {
+			if l.Key == m.String() {
+				res.fail(sig("lease"), "lease table still holds a lease for %s (%s) after the session ended", l.Key, l.Lease.IP)
+			}
 		}
 	}
-	if len(tc.P.Cid) > 0 {
+	for _, cid := range x.cids {
+		if len(cid) == 0 {
+			continue
+		}
 		for _, l := range x.srv.VerifLeasesByCircuitID() {
-			if l.Key == fmt.Sprintf("%x", []byte(tc.P.Cid)) {
-				res.fail(sig("lease"), "circuit-id lease index still resolves %x to %s/%s after the session ended", []byte(tc.P.Cid), l.Lease.MAC, l.Lease.IP)
+			if l.Key == fmt.Sprintf("%x", cid) {
+				res.fail(sig("lease"), "circuit-id lease index still resolves %x to %s/%s after the session ended", cid, l.Lease.MAC, l.Lease.IP)
 			}
 		}
 	}
 	// (1) the address is back in the pool (a DECLINEd address is deliberately quarantined, RFC 2131 4.3.3:
 	// it must no longer be charged to the client and is accounted for as unavailable)
 	st := x.pool.VerifState()
-	if ip := st.Allocated[x.mac().String()]; ip != "" {
-		res.fail(sig("pool"), "pool still has %s allocated to %s after the session ended", ip, x.mac())
-	} else {
+	stillAllocated := false
+	for _, m := range x.macs {
+		if ip := st.Allocated[m.String()]; ip != "" {
+			stillAllocated = true
+			res.fail(sig("pool"), "pool still has %s allocated to %s after the session ended", ip, m)
+		}
+	}
+	if !stillAllocated {
 		newUnavail := len(st.Unavailable) - len(prePool.Unavailable)
 		if newUnavail != x.quarantined {
 			res.fail(sig("pool"), "pool quarantined %d addresses, the session declined %d", newUnavail, x.quarantined)
@@ -615,5 +860,17 @@ func (x *dhcpRun) oracle(sigPath string, pre *census, prePool dhcp.VerifPoolStat
 		}
 	}
 	// (2)+(3)
-	x.w.planeOracle(res, tc, sigPath, pre, sessionIdent{MAC: x.mac(), IP: x.ip, Cid: tc.P.Cid})
+	for i, m := range x.macs {
+		var cid []byte
+		if i == 0 {
+			cid = x.cids[0]
+		}
+		x.w.planeOracle(res, tc, sigPath, pre, sessionIdent{MAC: m, IP: x.ip, Cid: cid})
+		if len(res.viol) > 0 {
+			return
+		}
+	}
+	for _, cid := range x.cids[1:] {
+		x.w.planeOracle(res, tc, sigPath, pre, sessionIdent{MAC: x.curMAC, IP: x.ip, Cid: cid})
+	}
 }
